@@ -109,4 +109,12 @@ def coreTypeNames : List Name :=
 def coreTypeDefs (g : Defs) : List (Option Name) :=
   coreTypeNames.map (fun n => if defined g n then some n else none)
 
+/-! ### the small look-ups -/
+
+/-- `has_subtype` -/
+def hasSubtype (ns : Ns) (s : Name) : Bool := !(subtypesOf ns s).isEmpty
+
+/-- `all_matching_names`: the names that have a def, in the order given (a name given twice comes out twice) -/
+def allMatchingNames (g : Defs) (names : List Name) : List Name := names.filter (defined g)
+
 end Hs.NsA
